@@ -15,7 +15,8 @@ What is translated (anything outside the accepted shapes raises TranslationBroke
   * ``_post_with_retry`` / ``_options_with_retry``: ``if config is None: return client.<verb>(...)`` then
     ``return _request_with_retry(lambda: client.<verb>(...), config=config, ...)`` (shape only)
   * request sites (``self._client.post`` / ``client.post`` = plain, ``_post_with_retry`` = retried, with the
-    enclosing status condition) of HttpStreamSession.exchange / cancel / _send_continuation and of the
+    enclosing status condition) of HttpStreamSession.exchange / cancel / _send_continuation (for cancel also: the
+    unconditional ``self._state_bytes = None`` precedes the posting statement) and of the
     unary / stream-init callers of _HttpProxy                      -> gen_*_sites
 """
 from __future__ import annotations
@@ -584,6 +585,30 @@ def sites(fn: ast.FunctionDef, client_expr: str, site: str) -> list[tuple[str, s
     return out
 
 
+def cancel_releases_first(fn: ast.FunctionDef, site: str) -> bool:
+    """In cancel(): does the unconditional ``self._state_bytes = None`` come BEFORE the statement that posts?
+    (the model's cancel() drops the token whatever the POST does; a release after the POST is skipped when it raises)"""
+    rel = post = None
+    for i, st in enumerate(_strip_doc(fn.body)):
+        is_rel = (
+            isinstance(st, ast.Assign) and len(st.targets) == 1 and isinstance(st.targets[0], ast.Attribute)
+            and st.targets[0].attr == "_state_bytes" and isinstance(st.targets[0].value, ast.Name) and st.targets[0].value.id == "self"
+            and isinstance(st.value, ast.Constant) and st.value.value is None
+        )
+        if is_rel and rel is None:
+            rel = i
+        has_post = any(
+            isinstance(n, ast.Call) and isinstance(n.func, ast.Attribute) and n.func.attr == "post"
+            and isinstance(n.func.value, ast.Attribute) and n.func.value.attr == "_client"
+            for n in ast.walk(st)
+        )
+        if has_post and post is None:
+            post = i
+    if post is None:
+        raise TranslationBroken(site, "cancel(): no self._client.post(...) statement found")
+    return rel is not None and rel < post
+
+
 def _method(cls: ast.ClassDef, name: str, site: str) -> ast.FunctionDef:
     return _func(cls, name, site)
 
@@ -632,6 +657,7 @@ def definitions(repo: Path) -> str:
         "Definition gen_disconnect_marker : list N := [" + "; ".join(str(ord(ch)) for ch in rw["marker"]) + "]%N.",
         csites("gen_exchange_sites", sites(_method(sess, "exchange", cs), "self._client", cs)),
         csites("gen_cancel_sites", sites(_method(sess, "cancel", cs), "self._client", cs)),
+        "Definition gen_cancel_releases_token_before_post : bool := " + str(cancel_releases_first(_method(sess, "cancel", cs), cs)).lower() + ".",
         csites("gen_continuation_sites", sites(_method(sess, "_send_continuation", cs), "self._client", cs)),
         csites("gen_unary_sites", sites(_inner_caller(prox, "_make_unary_caller", cs), "client", cs)),
         csites("gen_init_sites", sites(_inner_caller(prox, "_make_stream_caller", cs), "client", cs)),
